@@ -906,7 +906,7 @@ def run(chk):
     for c in load_corpus():
         cases.append((c["src"], c["coq"]))
         kinds.append("corpus")
-    nrand = 1500 if quick else 40000
+    nrand = 1500 if quick else 12000
     feats = collections.Counter()
     gen_fail = 0
     for n in range(nrand):
